@@ -107,7 +107,7 @@ def run(ck):
                 # that fires before the start marker is discarded, several threads reaching k give several faults
                 ks = list(range(1, counts["_max_per_thread"].get(c, 0) + 1))
                 span[c] = ks
-                cap = (40 if thorough else 10) if tag == "many-concurrent" else (400 if thorough else 24)
+                cap = (40 if thorough else 6) if tag == "many-concurrent" else (400 if thorough else 14)
                 if len(ks) > cap:
                     step = len(ks) / float(cap)
                     ks = sorted({ks[int(i * step)] for i in range(cap)} | {ks[-1]})
@@ -180,11 +180,12 @@ def run(ck):
         pos = fu.last_l(v) - 1
         start, tag, job, inj, stderr = run_of(pos)
         e = events[pos - 1]
-        if v.kind == "invariant" and v.name in ("CrashSafeT", "PropOK", "ExitOK", "BlameOK"):
+        if v.kind == "invariant" and v.name in ("CrashSafeT", "PropOK", "ExitOK", "BlameOK", "AffectedOK"):
             what = {"CrashSafeT": "a write was acknowledged although the named files do not hold its exact bytes (or partial bytes are exposed)",
                     "PropOK": "the reopened tree lost an acknowledged object, returned foreign / partial bytes or listed a non-object",
                     "ExitOK": "the process panicked, hung or did not answer an operation after a failed file-system call",
-                    "BlameOK": "an operation reported an error although no call of its own or of its batch failed (unaffected write failed)"}[v.name]
+                    "BlameOK": "an operation reported an error although no call of its own or of its batch failed (unaffected write failed)",
+                    "AffectedOK": "an operation reported success although a call of its own or of its batch file failed (affected write did not fail)"}[v.name]
             ck.violation("%s (run %s, inject %s, event %d: %s) stderr: %s" % (what, tag, inj, pos - start + 1, json.dumps(e)[:500], stderr[-400:]),
                          {"tag": tag, "job": job, "inject": inj, "invariant": v.name, "event": e, "stderr": stderr[-1500:],
                           "run_events": events[start - 1:pos]})
